@@ -2261,6 +2261,16 @@ func (r *Run) followInValidation(fn *types.Func) bool {
 		if (r.W.Concrete || r.W.FollowAnnHelpers) && res.Len() > 0 && !r.W.readsOptionsDirect(fn) {
 			return true // scenario mode: every helper that is not a base accessor is interpreted
 		}
+		if r.W.Concrete && res.Len() == 0 && !r.W.readsOptionsDirect(fn) {
+			// a result-less helper that fills a map it is handed (indexHeadersByName(byName, headers)): its effect is the
+			// stores into that map, which concrete maps model
+			sig := fn.Type().(*types.Signature)
+			for i := 0; i < sig.Params().Len(); i++ {
+				if _, isMap := sig.Params().At(i).Type().Underlying().(*types.Map); isMap {
+					return true
+				}
+			}
+		}
 		// a helper over scalars only (ExtractPathParams(path string) []string …) has nothing symbolic to hide
 		if sig := fn.Type().(*types.Signature); r.FollowSlices && sig.Recv() == nil && sig.Params().Len() > 0 && res.Len() > 0 && !r.W.readsOptions(fn) {
 			scalar := true
@@ -2290,6 +2300,12 @@ func (w *Walker) readsOptionsDirect(fn *types.Func) bool {
 		if call, ok := n.(*ast.CallExpr); ok {
 			if c := Callee(info, call); c != nil && (c.Name() == "Options" || c.Name() == "GetExtension" || c.Name() == "HasExtension") {
 				res = true
+			} else if c != nil && fn.Exported() && c.Pkg() == fn.Pkg() && w.P.Decls[c] != nil && w.readsOptions(c) {
+				// an exported accessor whose read goes through a private or generic reader of its package
+				// (fieldExtensionOr[T](field, ext, fallback)) is the public face of that read: it is the base accessor
+				if sig, ok := c.Type().(*types.Signature); ok && (!c.Exported() || sig.TypeParams().Len() > 0) {
+					res = true
+				}
 			}
 		}
 		return !res
